@@ -465,3 +465,60 @@ func (c *Ctx) detectMirror(l *scanLoop) {
 		}
 	}
 }
+
+// lockstep: two phis of the same loop header that start a constant apart and
+// are stepped by the same constant on every back edge (`for remaining, i :=
+// len(xs), len(xs)-1; remaining > 0; remaining, i = remaining-1, i-1`):
+// returns d with p == q + d throughout the loop.
+func lockstep(p, q *ssa.Phi, same func(a, b ssa.Value) bool) (int64, bool) {
+	if p.Block() != q.Block() || len(p.Edges) != len(q.Edges) {
+		return 0, false
+	}
+	split := func(v ssa.Value) (ssa.Value, int64) {
+		var k int64
+		for i := 0; i < 4; i++ {
+			bo, ok := v.(*ssa.BinOp)
+			if !ok || (bo.Op != token.ADD && bo.Op != token.SUB) {
+				break
+			}
+			n, isK := constInt(bo.Y)
+			if !isK {
+				break
+			}
+			if bo.Op == token.SUB {
+				n = -n
+			}
+			k += n
+			v = bo.X
+		}
+		return v, k
+	}
+	head := p.Block()
+	var delta int64
+	haveInit := false
+	for k, pred := range head.Preds {
+		bp, kp := split(p.Edges[k])
+		bq, kq := split(q.Edges[k])
+		if head.Dominates(pred) {
+			// back edge: each steps itself by the same amount
+			if bp != ssa.Value(p) || bq != ssa.Value(q) || kp != kq || kp == 0 {
+				return 0, false
+			}
+			continue
+		}
+		if cp, okp := constInt(bp); okp {
+			if cq, okq := constInt(bq); okq {
+				bp, bq, kp, kq = nil, nil, kp+cp, kq+cq
+			}
+		}
+		if bp != bq && (bp == nil || bq == nil || !same(bp, bq)) {
+			return 0, false
+		}
+		d := kp - kq
+		if haveInit && d != delta {
+			return 0, false
+		}
+		delta, haveInit = d, true
+	}
+	return delta, haveInit
+}
